@@ -25,7 +25,7 @@ CHECKS = {
                 note="Trusted: refmodel.llk."),
     "C11": dict(engine="inputs", category="exploration",
                 technique="exhaustive enumeration of all genotypes per (ploidy, alleles) against sorted reference order; walker as one-operation state machine; binomial grid + 2^53 frontier windows",
-                text="For all (P<=8,H<=12,N<=1e5) every genotype: index map == position in the VCF-spec order, inverse, bijection onto 0..N-1, increment_genotype walks that order; comb/comb_with_replacement/count_unique_genotypes vs math.comb on n<200,k<20 and along the N<2^53 frontier for all k<=80.",
+                text="For all (P<=14,H<=160) with N<=3e4 every genotype: index map == position in the VCF-spec order, inverse, bijection onto 0..N-1, increment_genotype walks that order; comb/comb_with_replacement/count_unique_genotypes vs math.comb on n<200,k<20 and along the N<2^53 frontier for all k<=80.",
                 note="Trusted: math.comb, itertools."),
     "C17": dict(engine="inputs", category="exploration",
                 technique="exhaustive enumeration of small trios/duos/founders against brute-force inheritance; dosage walker state machine",
